@@ -357,6 +357,12 @@ func dependsOn(v, target ssa.Value, depth int) bool {
 		return dependsOn(x.Tuple, target, depth+1)
 	case *ssa.MakeInterface:
 		return dependsOn(x.X, target, depth+1)
+	case *ssa.TypeAssert:
+		return dependsOn(x.X, target, depth+1)
+	case *ssa.ChangeInterface:
+		return dependsOn(x.X, target, depth+1)
+	case *ssa.ChangeType:
+		return dependsOn(x.X, target, depth+1)
 	}
 	return false
 }
